@@ -54,4 +54,11 @@ theorem cancelCtx_translated (hasID : Bool) (s : ExecState) (p : CtlParams) :
             by_cases hm : (NId.str text) ∈ s.handling <;> simp [hm, bindMany, Env.bind1, Env.set, Env.get, logFx, Val.ofList, Val.toList, encCancel, cancelFn]
         · by_cases hm : (NId.str text) ∈ s.handling <;> simp [Jrpc.cancelCtx, CtlParams.decoded, JVal.key?, hm]
 
+/-- C10 over the regenerated code: no params member a peer can put into an `xrpc.cancel` frame makes `cancelCtx` panic
+    (no index out of range, no hash of an unhashable key), whatever the `handling` table holds. -/
+theorem C10_cancelCtx_never_panics (hasID : Bool) (s : ExecState) (p : CtlParams) :
+    (run (frameExt p) prog_wsConn_cancelCtx (cancelEnv hasID s)).isPanic = false := by
+  obtain ⟨_, h, _⟩ := cancelCtx_translated hasID s p
+  exact not_panic_of_fx h
+
 end Jrpc.Trans
